@@ -106,6 +106,19 @@ ADDENDA = {
  "C19": "Third session: part (a) persists over files that hold other content of the same or another length; part (b) also runs failure plans, so the error-handler attributes (which input is the error, methods with a receiver, handlers attached to constructors) are judged end to end.",
 }
 
+ADDENDA4 = {
+ "C01": "Fourth session: borrow-checker stress family (independent move-vs-borrow crossings, capture chains value -> view -> by-value holders with inputs met at other depths, values consumed by a fallible constructor, its error handler and the request handler; registrations in a generated order), 24 such applications per quick run; long middleware chains of 12-20. One more compiler defect found this way was repaired (transitive captures computed out of dependency order).",
+ "C05": "Fourth session: long chains are 12-20 middlewares of one kind, half of them without injected values.",
+ "C06": "Fourth session: the user's fallback handler for pavex::Error (root blueprint, a quarter of the applications, one error type then has no handler of its own).",
+ "C09": "Fourth session: 16 borrow-checker stress applications per quick run as variants (the fixed points of the borrow checker must terminate); a non-terminating fixed point was found and repaired; one open finding (a fallible transient constructor whose error handler needs the type it builds) is recorded under its own structural signature and replayed by every run.",
+ "C13": "Fourth session: leftover sets of 520-3000 expired ids (in-memory store); renames onto an expired, unreaped id by 2-3 concurrent callers (at most one succeeds, losers keep their record).",
+ "C14": "Fourth session: seven spellings of the chunked coding; the extractor also behind hyper's plain HTTP/1 connection driver; hyper / hyper-util pinned to the versions of the repository's lock file (with them a Content-Length that precedes Transfer-Encoding reaches the extractor).",
+ "C15": "Fourth session: f32 fields as 20-60 digit decimals on / next to the mid-point of neighbouring floats with an exact digit-by-digit reference; Content-Type parameters that spell acceptable media types; data after a complete JSON document (a defect of JsonBody found this way was repaired).",
+ "C16": "Fourth session: worker 0's queue filled to the brim (13-18 queued requests; it holds 15) and two workers blocked beyond the timeout (resolution judged at timeout + 1.2 s over three consecutive runs).",
+ "C17": "Fourth session: occurrence-wise instantiation (occurrences of one template parameter bound to types equal only up to their own generic names), integer const arguments in several spellings.",
+ "C18": "Fourth session: the configuration directory at two ancestor levels with the files split between them (only keys on which per-file and per-directory upward search agree are judged), variables that differ from PX_PROFILE by letter case, environment passed in a generated order.",
+}
+
 PENDING = {}  # id -> reason, filled below for everything not in CHECKS
 
 props = [json.loads(l)["id"] for l in open("/verif/properties.jsonl")]
@@ -154,7 +167,7 @@ for p in props:
             "evidence_file": f"/verif/evidence/{p}.json",
             "replay_cmd_template": f"./check {p} --replay {{path}}",
             "engine": eng,
-            "level_claimed": {"category": "exploration", "text": (text + " " + ADDENDA.get(p, "")).strip(), "design_ref": ref + (", §7.8" if p in ADDENDA else "")},
+            "level_claimed": {"category": "exploration", "text": (text + " " + ADDENDA.get(p, "") + " " + ADDENDA4.get(p, "")).strip(), "design_ref": ref + (", §7.8" if p in ADDENDA else "") + (", §7.9" if p in ADDENDA4 else "")},
             "level_note": note,
             "technique": tech,
         })
